@@ -15,14 +15,32 @@ import (
 )
 
 func profiles() map[string]world.Profile {
-	base := map[string]int{"AddFact": 30, "RemFact": 12, "GetFact": 12, "SearchFacts": 25}
+	facts := map[string]int{"AddFact": 30, "RemFact": 12, "GetFact": 12, "SearchFacts": 25}
+	cascade := map[string]int{"AddFact": 30, "RemFact": 14, "GetFact": 8, "SearchFacts": 8, "AddRule": 8,
+		"RemRule": 6, "EnableRule": 8, "ListRules": 3}
 	rules := map[string]int{"AddFact": 8, "RemFact": 6, "AddRule": 25, "RemRule": 10, "GetRule": 5,
 		"EnableRule": 8, "ListRules": 4, "SearchRules": 6, "ProcessEvent": 30, "Clear": 2, "SearchFacts": 4}
+	expiry := map[string]int{"AddFact": 25, "AddRule": 10, "GetFact": 12, "SearchFacts": 12, "GetRule": 4,
+		"ProcessEvent": 10, "RemFact": 4, "Reload": 6, "Sleep": 8, "ListRules": 3, "SearchRules": 3}
+	guards := map[string]int{"AddFact": 12, "RemFact": 6, "GetFact": 6, "SearchFacts": 6, "AddRule": 8, "RemRule": 5,
+		"GetRule": 4, "EnableRule": 5, "SetParents": 4, "GetParents": 2, "Clear": 3, "StateSize": 4, "ListRules": 4,
+		"SearchRules": 4, "ProcessEvent": 6, "SetReadOnly": 5, "SetKey": 14}
+	capacity := map[string]int{"AddFact": 30, "AddRule": 12, "RemFact": 10, "RemRule": 5, "EnableRule": 6,
+		"StateSize": 10, "GetFact": 5, "Clear": 2}
+	parents := map[string]int{"AddFact": 18, "RemFact": 5, "AddRule": 14, "RemRule": 5, "SetParents": 10, "GetParents": 4,
+		"SearchFacts": 14, "ProcessEvent": 14, "ListRules": 5, "SearchRules": 5, "EnableRule": 5, "GetFact": 4}
+	lifecycle := map[string]int{"AddRule": 22, "RemRule": 8, "EnableRule": 14, "ProcessEvent": 30, "Reload": 6,
+		"SetKey": 3, "AddFact": 4, "RemFact": 3, "SetParents": 3, "GetRule": 3, "ListRules": 3}
 	ids := []string{"f1", "f2", "f3"}
 	return map[string]world.Profile{
-		"facts": {Name: "facts", Len: 40, Locs: []string{"A"}, Ids: ids, MaxFacts: 1000, Weights: base, Cascade: false},
-		"rules": {Name: "rules", Len: 40, Locs: []string{"A"}, Ids: []string{"r1", "r2", "f1"}, Rules: true,
-			MaxFacts: 1000, Weights: rules},
+		"facts":    {Name: "facts", Len: 40, Locs: []string{"A"}, Ids: ids, MaxFacts: 1000, Weights: facts},
+		"cascade":  {Name: "cascade", Len: 40, Locs: []string{"A"}, Ids: []string{"f1", "f2", "f3", "f4"}, MaxFacts: 1000, Weights: cascade, Cascade: true},
+		"rules":    {Name: "rules", Len: 40, Locs: []string{"A"}, Ids: []string{"r1", "r2", "f1"}, Rules: true, MaxFacts: 1000, Weights: rules},
+		"expiry":   {Name: "expiry", Len: 30, Locs: []string{"A"}, Ids: ids, Rules: true, Expiry: true, Cascade: true, MaxFacts: 1000, Weights: expiry},
+		"guards":   {Name: "guards", Len: 50, Locs: []string{"A"}, Ids: ids, Rules: true, Keys: true, MaxFacts: 1000, Weights: guards},
+		"capacity": {Name: "capacity", Len: 40, Locs: []string{"A"}, Ids: []string{"f1", "f2", "f3", "f4", "f5"}, Rules: true, MaxFacts: 3, Weights: capacity},
+		"lifecycle": {Name: "lifecycle", Len: 45, Locs: []string{"A", "B"}, Ids: []string{"r1", "r2"}, Rules: true, Parents: true, MaxFacts: 1000, Weights: lifecycle},
+		"parents":  {Name: "parents", Len: 45, Locs: []string{"A", "B", "C"}, Ids: []string{"f1", "f2", "r1", "r2"}, Rules: true, Parents: true, MaxFacts: 1000, Weights: parents},
 	}
 }
 
@@ -36,6 +54,7 @@ func main() {
 		store  = flag.String("store", "mem", "mem|bolt")
 		out    = flag.String("out", "trace.ndjson", "output file")
 		par    = flag.Int("par", 8, "traces run concurrently")
+		mixed  = flag.Bool("mixed-events", false, "events may hold arrays of mixed scalar types")
 	)
 	flag.Parse()
 	p, ok := profiles()[*prof]
@@ -43,6 +62,7 @@ func main() {
 		fmt.Fprintln(os.Stderr, "unknown profile", *prof)
 		os.Exit(2)
 	}
+	p.MixedEvents = *mixed
 	if *length > 0 {
 		p.Len = *length
 	}
